@@ -42,6 +42,11 @@ Theorem C12_operation_text : forall o, op_ok o -> parse_op (print_op o) = Some o
 Proof. exact parse_print_op. Qed.
 Print Assumptions C12_operation_text.
 
+(* ... so two different well-formed operations are never written the same way *)
+Theorem C12_operation_text_injective : forall a b, op_ok a -> op_ok b -> print_op a = print_op b -> a = b.
+Proof. exact print_op_injective. Qed.
+Print Assumptions C12_operation_text_injective.
+
 Example C12_nonvacuous :
   (* five operations, the 4th on another route: limit 120 -> [0,1] [2] [3] [4]; limit 0 -> singles *)
   let ops := [Op 22 8 1 0; Op 22 8 1 0; Op 40 4 1 0; Op 22 8 2 0; Op 22 8 1 0] in
